@@ -105,6 +105,19 @@ CHECKS = {
             "trusted: math.cos/sin on the snapshot (mc/snap.py rigid); translations and angles outside the alphabets and "
             "scenarios beyond the component menu are not covered",
             "DESIGN.md §4 C05"),
+    "C04": ("exhaustive enumeration of obstacle role x shape x state class x initial time step x trajectory length x pose x "
+            "every integer time step around the horizon (exact states), region kind x orientation half-width x shape x role "
+            "(uncertain states, enclosure decided on an exact finite candidate set), obstacles changed through public "
+            "mutators, and all sets of <=3 obstacles x time x filters for the scenario-level queries",
+            "Exact: expected region R(theta)v+p from the spec for static / dynamic (7 trajectory state classes incl. "
+            "point-mass) / set-based / phantom / environment obstacles x 5 shapes x 8 poses x 2 start steps x lengths x gaps x "
+            "all t in [t0-2, tend+2], incl. state/time pairing and None outside the horizon. Uncertain: support-function "
+            "containment of the shape at every extreme position and every critical orientation inside the returned "
+            "rectangle. Scenario level: all subsets of size <=3 of an 8-obstacle pool x 7 time steps x role/type filters x "
+            "6 position boxes against what the per-obstacle answers imply.",
+            "trusted: plain trigonometry and the support-function argument in mc/checks/c04.py; placement of off-centre "
+            "members of shape groups is not asserted (rotation centre not fixed by the statement)",
+            "DESIGN.md §4 C04"),
 }
 
 NOT_YET = {}
